@@ -50,8 +50,56 @@ class C05Stop(Monitor):
             elif self.enters_after[deme.id] > 1:
                 self._bad("a deme ran more than one metaepoch after the GSC became true", deme=deme.id)
 
+    def _ref_gsc(self, tree):
+        """The documented rule of each shipped global stop condition, recomputed from the tree's public state."""
+        ctx = self.ctx
+        g = ctx.desc.get("gsc", {})
+        k = g.get("k")
+        demes = self.all_demes(tree)
+        if k == "melimit":
+            return tree.metaepoch_count >= g["n"]
+        if k == "dontrun":
+            return True
+        if k == "evals":
+            return sum(d.n_evaluations for d in demes) >= g["n"]
+        if k == "fevals":
+            nl = len(ctx.desc["levels"])
+            w = g.get("w", "equal") if "w" in g else "equal"
+            weights = [1] * nl if w in ("equal", None) else ([1] + [0] * (nl - 1) if w == "root" else list(w))
+            return sum(weights[d.level] * d.n_evaluations for d in demes) >= g["n"]
+        if k == "rootstopped":
+            return not tree.root.is_active
+        if k == "allstopped":
+            return not any(d.is_active for d in demes)
+        if k == "nononroot":
+            step = tree.metaepoch_count
+            for lvl in tree.levels[1:]:
+                if not lvl:
+                    return False
+                for d in lvl:
+                    if d.is_active or step <= d.started_at + d.metaepoch_count + g["n"]:
+                        return False
+            return True
+        return None  # precision: decided by the wrapper (C16); minimize(): evals on requests, checked through nit / nfev
+
     def on_gsc(self, tree, verdict, kind, deme):
         ctx = self.ctx
+        if ctx.desc.get("kind") != "minimize":
+            try:
+                want = self._ref_gsc(tree)
+            except Exception:
+                want = None
+            if want is not None:
+                self.cov("gsc_verdicts_compared_with_documented_rule")
+                if bool(want) != bool(verdict):
+                    self.v(
+                        f"global stop condition's verdict differs from its documented rule: {ctx.desc['gsc']['k']}",
+                        verdict=bool(verdict),
+                        rule=bool(want),
+                        where=kind,
+                        metaepoch=tree.metaepoch_count,
+                        active=[d.id for d in self.all_demes(tree) if d.is_active][:6],
+                    )
         if kind == "run":
             self.run_consults.append(verdict)
         if self.T is None:
